@@ -216,6 +216,13 @@ pub fn c02(a: &Args) {
             let want = format!("{};{}", tt.count_with(&[1, 2]), tt.count_with(&[1, -2]));
             if s != want { out.fail("stream-count-vars", &file.text(), &msg, &s, &want); }
         }
+        // the shape of the FFI's `count_multiple` (the cdylib itself cannot be called from here): the library helper it
+        // is built from, `util::zip_assumptions_variables`, in its four cases (both empty, one empty, neither)
+        for (asm, vars) in [(vec![], vec![]), (vec![], vec![1i32, -1]), (vec![-1i32], vec![]), (vec![1i32], (1..=file.n as i32).rev().collect::<Vec<i32>>())] {
+            let got: Result<Vec<String>, String> = guarded(|| ddnnife::util::zip_assumptions_variables(&asm, &vars).map(|q| d.execute_query(&q).to_string()).collect());
+            let want: Vec<String> = if vars.is_empty() { vec![tt.count_with(&asm).to_string()] } else { vars.iter().map(|v| { let mut q = asm.clone(); q.push(*v); tt.count_with(&q).to_string() }).collect() };
+            match got { Ok(g) if g == want => {}, Ok(g) => out.fail("count-multiple", &file.text(), &format!("count_multiple {:?} {:?}", asm, vars), &g.join(";"), &want.join(";")), Err(e) => out.fail("count-multiple", &file.text(), &format!("count_multiple {:?} {:?}", asm, vars), &format!("panic: {e}"), &want.join(";")) }
+        }
     });
     corpus_c02(a, &mut out, &mut r2);
     out.finish("every model of the C01 space x (all 3^n consistent partial assignments for n<=5 quick / n<=7 thorough, else 200 random ones) + random lists with duplicates/contradictions of lengths 1,2,3,5,19,20,21,22,40; non-trivial = non-constant function and non-empty list; distinct by (file text, list)");
